@@ -73,6 +73,14 @@ def cases(tier, seed):
             C = -(-n_iter // ce)
             for sc in scripts(min(C, B["L"])):
                 out.append(dict(type="protocol", n_iter=n_iter, call_every=ce, script=sc, key=seed + 9))
+    # the same protocol when an update produces NaN parameters at iteration k: an invocation scheduled at k receives the
+    # post-update (NaN) parameters like any other, then training stops
+    for n_iter in B["n_iters"]:
+        for ce in B["periods"]:
+            C = -(-n_iter // ce)
+            for nan_k in range(n_iter):
+                for imp in (0, 1):
+                    out.append(dict(type="protocol", n_iter=n_iter, call_every=ce, script=[(imp, 0)] * C, key=seed + 9, nan_k=nan_k))
     for patience in (0, 1, 2, 3):
         for es in (True, False):
             for first in (1, 2, 3):
@@ -124,6 +132,9 @@ def run_protocol(case):
         warnings.simplefilter("ignore")
         P = tl.make_problem(dict(kind="ode", n=5, b=2, key=case["key"], aux="none"))
     tx = tl.make_optimizer("adam")
+    if case.get("nan_k") is not None:
+        from jmc.checks.c18 import nan_at
+        tx = optax.chain(tx, nan_at(case["nan_k"], lambda p: jax.tree_util.tree_leaves(p.nn_params)[0]))
     sc = case["script"] or [(0, 0)]
     val = ScriptedValidation(call_every=case["call_every"], improved=jnp.asarray([s[0] for s in sc]), stop=jnp.asarray([s[1] for s in sc]),
                              calls=jnp.asarray(0))
@@ -132,7 +143,8 @@ def run_protocol(case):
     with warnings.catch_warnings():
         warnings.simplefilter("ignore")
         out = jinns.solve(n_iter=n_iter, init_params=P["params"], data=P["data"], loss=P["loss"], optimizer=tx, validation=val, verbose=False)
-    return compare("solve/validation_protocol", out, ref, n_iter, f"period {case['call_every']} script {sc}")
+    return compare("solve/validation_protocol" + ("/nan_update" if case.get("nan_k") is not None else ""), out, ref, n_iter,
+                   f"period {case['call_every']} script {sc}" + (f" NaN update at iteration {case['nan_k']}" if case.get("nan_k") is not None else ""))
 
 
 def compare(site, out, ref, n_iter, ctx):
@@ -142,7 +154,7 @@ def compare(site, out, ref, n_iter, ctx):
     crit = np.asarray(out[7]) if out[7] is not None else None
     if crit is None:
         return [V(site, "no_validation_criterion_returned", ctx)]
-    ok, msg = tl.leaves_close(crit[:done], ref["val_crit"][:done])
+    ok, msg = tl.leaves_close(crit[:done], ref["val_crit"][:done], nan_ok=True)
     if not ok:
         v.append(V(site, "criterion_history_differs(schedule_or_arguments_or_carry_forward)",
                    f"{ctx}: got {crit.tolist()} expected {ref['val_crit'].tolist()} (invocations expected at {ref['val_calls']})"))
@@ -150,7 +162,7 @@ def compare(site, out, ref, n_iter, ctx):
     stopped_impl = int(np.max(np.nonzero(tot)[0]) + 1) if np.any(tot != 0) else 0
     if stopped_impl != done or not np.all(crit[done:] == 0.0):
         v.append(V(site, "stop_iteration_differs", f"{ctx}: ran {stopped_impl} iteration(s), expected {done} (stopped: {ref['stopped']})"))
-    ok, msg = tl.leaves_close(out[8], ref["best"])
+    ok, msg = tl.leaves_close(out[8], ref["best"], nan_ok=True)
     if not ok:
         v.append(V(site, "best_params_are_not_those_of_the_last_improving_invocation", f"{ctx}: {msg}"))
     ok, msg = tl.leaves_close(out[0], ref["params"])
